@@ -446,6 +446,24 @@ func init() {
 					}
 				}})
 			}
+			if len(def.OptSlots()) > 0 {
+				us = append(us, core.Unit{Name: "many-" + def.Name, Weight: 10, Run: func(c *core.Ctx) {
+					// heavy repetition of optional elements: "any sequence of known
+					// elements, the last occurrence wins" has no bound on the count
+					for _, n := range manyCounts(c.Thorough()) {
+						pl := manyOpts(def, c.R, n)
+						b := pl.Bytes()
+						k := &core.Case{Oracle: "decode", Target: "nasMessage." + def.Name, S: []string{def.Name}, B: [][]byte{b}, I: []int64{int64(n) % 2}}
+						c.Do(k)
+						c.NonTrivial(k.Hash())
+						c.Count("many_element_strings", 1)
+						// cut inside the last three elements
+						for cut := len(b) - 1; cut > len(b)-8 && cut > def.HeaderLen(); cut-- {
+							c.Do(&core.Case{Oracle: "decode", Target: "nasMessage." + def.Name, S: []string{def.Name}, B: [][]byte{b[:cut]}, I: []int64{int64(cut) % 2}})
+						}
+					}
+				}})
+			}
 			us = append(us, core.Unit{Name: "plans-" + def.Name, Weight: 30, Run: func(c *core.Ctx) {
 				n := c.Pick(60, 1500)
 				for i := 0; i < n; i++ {
@@ -469,7 +487,63 @@ func init() {
 				}
 			}})
 		}
+		us = append(us, domainUnits(sp, sp.Messages, tier, 30, func(c *core.Ctx, d *domainPDU, i int) {
+			k := &core.Case{Oracle: "decode", Target: "nasMessage." + d.Def.Name, S: []string{d.Def.Name}, B: [][]byte{d.B}, I: []int64{int64(i) % 2}}
+			c.Do(k)
+			if i%16 == 0 {
+				c.NonTrivial(k.Hash())
+			}
+		})...)
 		return us
 	}
 	core.Register(p)
+}
+
+// manyCounts lists the element counts of the heavy-repetition strings.
+func manyCounts(thorough bool) []int {
+	if thorough {
+		return []int{31, 32, 33, 63, 64, 65, 66, 100, 127, 128, 129, 200, 255, 256, 257, 300, 1000, 5000}
+	}
+	return []int{33, 65, 66, 129, 257, 300}
+}
+
+// manyOpts lays out n optional elements of def (small ones preferred, any
+// order, heavy repetition) behind a minimal mandatory part; the last element of
+// the string is one that occurs nowhere before it when the message has at
+// least two optional slots, so dropping the tail changes the decoded value.
+func manyOpts(def *refcodec.Msg, r *prng.Rand, n int) *refcodec.Plan {
+	pl := refcodec.NewPlan(def, r, 3)
+	opts := def.OptSlots()
+	var small []int
+	for _, si := range opts {
+		if def.Slots[si].Min <= 8 {
+			small = append(small, si)
+		}
+	}
+	if len(small) == 0 {
+		small = opts
+	}
+	last := small[r.Intn(len(small))]
+	pool := small
+	if len(small) > 1 {
+		pool = nil
+		for _, si := range small {
+			if si != last {
+				pool = append(pool, si)
+			}
+		}
+	}
+	mk := func(si int) refcodec.Elem {
+		sl := &def.Slots[si]
+		m := sl.Min
+		if len(sl.Allowed) > 0 {
+			m = sl.Allowed[0]
+		}
+		return refcodec.OptElem(def, si, m, r.Bytes(m), r)
+	}
+	for j := 0; j < n-1; j++ {
+		pl.Opt = append(pl.Opt, mk(pool[r.Intn(len(pool))]))
+	}
+	pl.Opt = append(pl.Opt, mk(last))
+	return pl
 }
